@@ -37,7 +37,7 @@ META = {
             "correspondence run (generated rulebooks, 8 block vendors). The device itself (Model/Device.v) is a definition "
             "of the property, not a model of annet code.",
 }
-IMPORTS = P.PIPE_IMPORTS + "\nFrom Annet Require Import Model.Device Spec.P_C01."
+IMPORTS = P.PIPE_IMPORTS + "\nFrom Annet Require Import Model.Device Spec.P_C01 Spec.P_C01o."
 
 # ------------------------------------------------------------------ generator (slot-aware)
 
@@ -206,6 +206,219 @@ def gen_orev_case(rng: random.Random) -> dict:
             "patching": P.rules_text(rules), "ordering": P.ordering_text(orules)}
 
 
+# ------------------------------------------------------------------ %ordered chains
+# One %ordered rule at config depth 1-3 (rows with bodies of 0-2 levels, default rules beside it); a chain of
+# targets in which its rows are replaced in place (non-last entry), inserted in the middle, appended, removed,
+# reordered, re-texted inside their slot, edited inside their bodies.  The device semantics (DESIGN 3.C01):
+# a new row lands at the tail of its level, so everything that must follow an inserted row has to be re-created.
+
+OKEYS = ["1", "2", "3", "x", "y", "10.0.0.1", "Eth1", "7", "z9", "lo0", "gold", "iron", "q4"]
+OEDITS = ["replace_inplace", "replace_inplace", "replace_inplace", "insert_middle", "insert_middle", "append", "remove",
+          "swap", "rotate", "reverse", "move_one", "retext", "nested", "sibling", "same"]
+
+
+def _orule(pat, **kw):
+    r = {"pat": pat, "ign": False, "glob": False, "logic": "default", "mode": "", "parent": False,
+         "force_commit": False, "kids": []}
+    r.update(kw)
+    return r
+
+
+def _obody_rules(rng, levels: int) -> list[dict]:
+    if levels <= 0:
+        return []
+    out = [_orule("set *"), _orule("opt * *", logic=rng.choice(["default", "default", "undo_redo"]))]
+    blk = _orule("if *", kids=_obody_rules(rng, levels - 1) or [_orule("set *")])
+    if rng.random() < 0.35:
+        blk["mode"] = "ordered"
+    out.append(blk)
+    rng.shuffle(out)
+    return out
+
+
+def _obody(rng, rules: list[dict]) -> dict:
+    t: dict = {}
+    for r in rules:
+        if rng.random() < 0.25:
+            continue
+        keys = set()
+        for _ in range(rng.choice([1, 1, 2, 3])):
+            row = P.inst(rng, r["pat"], extra=False)
+            k = tuple(w for p_, w in zip(r["pat"].split(), row.split()) if p_ == "*")
+            if row in t or k in keys:
+                continue
+            keys.add(k)
+            t[row] = _obody(rng, r["kids"]) if r["kids"] else {}
+    items = list(t.items())
+    rng.shuffle(items)
+    return dict(items)
+
+
+def _copy(t: dict) -> dict:
+    return {k: _copy(v) for k, v in t.items()}
+
+
+def _edit_body(rng, t: dict, rules: list[dict]) -> bool:
+    """one slot-preserving edit somewhere inside a body (in place)"""
+    rows = list(t)
+    rng.shuffle(rows)
+    for row in rows:
+        r = next((x for x in rules if x["pat"].split()[0] == row.split()[0]), None)
+        if r and r["kids"] and t[row] and rng.random() < 0.6 and _edit_body(rng, t[row], r["kids"]):
+            return True
+    op = rng.choice(["add", "remove", "replace", "swap"])
+    items = list(t.items())
+    if op == "remove" and items:
+        del items[rng.randrange(len(items))]
+    elif op == "swap" and len(items) > 1:
+        i, j = rng.sample(range(len(items)), 2)
+        items[i], items[j] = items[j], items[i]
+    elif op == "replace" and items:
+        i = rng.randrange(len(items))
+        ws = items[i][0].split()
+        nrow = " ".join(ws[:-1] + [ws[-1] + "9"])
+        if nrow in t:
+            return False
+        items[i] = (nrow, items[i][1])
+    else:
+        leafs = [x for x in rules if not x["kids"]]
+        if not leafs:
+            return False
+        nrow = P.inst(rng, rng.choice(leafs)["pat"], extra=False) + "8"
+        if nrow in t:
+            return False
+        items.insert(rng.randrange(len(items) + 1), (nrow, {}))
+    t.clear()
+    t.update(items)
+    return True
+
+
+def gen_ordered_chain(rng: random.Random) -> dict:
+    v = rng.choice(P.BLOCK_VENDORS)
+    depth = rng.choice([1, 1, 2, 2, 3])
+    shape = rng.choice(["star", "star", "star", "star2", "tilde"])
+    body_levels = rng.choice([0, 0, 1, 1, 2])
+    pat = {"star": "entry *", "star2": "entry * *", "tilde": "entry ~"}[shape]
+    grule = _orule(pat, mode="ordered", kids=[] if shape == "tilde" and body_levels == 0 else _obody_rules(rng, body_levels))
+    level_rules = [grule]
+    if rng.random() < 0.6:
+        level_rules.append(_orule("mtu *", logic=rng.choice(["default", "undo_redo"])))
+    if rng.random() < 0.35:
+        level_rules.append(_orule("peer *", logic=rng.choice(["default", "permanent", "ignore_changes"])))
+    rng.shuffle(level_rules)
+    rules = level_rules
+    parents = ["alpha *", "beta *"][:depth - 1]
+    for ppat in parents[::-1]:
+        sib = [_orule("name *")] if rng.random() < 0.4 else []
+        rules = [_orule(ppat, kids=rules)] + sib
+    rev = P.VENDORS[v][0]
+    if rev.isalpha() and rng.random() < 0.1:
+        word = rev + rng.choice(["rth", "ne", "table"])            # a first word that merely starts with the reverse word
+        grule["pat"] = " ".join([word] + grule["pat"].split()[1:])
+    head = grule["pat"].split()[0]
+    fresh = list(OKEYS)
+    rng.shuffle(fresh)
+
+    def grow(k):
+        if shape == "star2":
+            return f"{head} {k} {rng.choice(OKEYS)}"
+        if shape == "tilde":
+            return f"{head} {k}" + (" " + rng.choice(OKEYS) if rng.random() < 0.4 else "")
+        return f"{head} {k}" + (" " + rng.choice(["a", "b", "c"]) if rng.random() < 0.35 else "")
+
+    def gbody():
+        return _obody(rng, grule["kids"]) if grule["kids"] else {}
+
+    n = rng.choice([2, 3, 3, 4, 5])
+    group = [(grow(fresh.pop()), gbody()) for _ in range(n)]
+    others = []
+    if any(r["pat"] == "mtu *" for r in level_rules) and rng.random() < 0.8:
+        others.append(("mtu " + rng.choice(OKEYS), {}))
+    if any(r["pat"] == "peer *" for r in level_rules):
+        others += [("peer " + k, {}) for k in rng.sample(OKEYS, rng.choice([1, 2]))]
+    prow = [p_.replace("*", rng.choice(OKEYS)) for p_ in parents]
+    extra = [{"name " + rng.choice(OKEYS): {}} if rng.random() < 0.3 else {} for _ in parents]
+    unknown = rng.random() < 0.12
+
+    def build(grp, oth, seed):
+        r = random.Random(seed)
+        items = [(k, _copy(b)) for k, b in grp]
+        for o in oth:
+            items.insert(r.randrange(len(items) + 1), o)
+        lvl = {}
+        for k, b in items:
+            lvl.setdefault(k, b)
+        if unknown:
+            lvl["unknown thing"] = {}
+        for pr, ex in zip(prow[::-1], extra[::-1]):
+            lvl = dict({pr: lvl}, **ex)
+        return lvl
+
+    place = rng.random()
+    old = build(group, others, place)
+    news, edits = [], []
+    cur, oth = group, others
+    for _ in range(rng.choice([1, 2, 2, 3, 3, 4])):
+        g2 = [(k, _copy(b)) for k, b in cur]
+        o2 = list(oth)
+        done = []
+        for _ in range(rng.choice([1, 1, 2])):
+            e = rng.choice(OEDITS)
+            m = len(g2)
+            if e == "replace_inplace" and m >= 2 and fresh:
+                g2[rng.randrange(m - 1)] = (grow(fresh.pop()), gbody())            # never the last entry
+            elif e == "insert_middle" and m >= 1 and fresh:
+                g2.insert(rng.randrange(m), (grow(fresh.pop()), gbody()))          # never at the tail
+            elif e == "append" and fresh:
+                g2.append((grow(fresh.pop()), gbody()))
+            elif e == "remove" and m >= 2:
+                fresh.insert(0, g2.pop(rng.randrange(m))[0].split()[1])
+            elif e == "swap" and m >= 2:
+                i, j = rng.sample(range(m), 2)
+                g2[i], g2[j] = g2[j], g2[i]
+            elif e == "rotate" and m >= 2:
+                k = rng.randrange(1, m)
+                g2 = g2[k:] + g2[:k]
+            elif e == "reverse" and m >= 2:
+                g2.reverse()
+            elif e == "move_one" and m >= 2:
+                x = g2.pop(rng.randrange(m))
+                g2.insert(rng.randrange(m), x)
+            elif e == "retext" and shape == "star" and m >= 1:
+                i = rng.randrange(m)                                               # same slot, other text
+                ws = g2[i][0].split()
+                nrow = " ".join(ws[:2] + [rng.choice(["a", "b", "c", "d"])])
+                if nrow != g2[i][0]:
+                    g2[i] = (nrow, g2[i][1] if rng.random() < 0.6 else gbody())
+                else:
+                    continue
+            elif e == "nested" and grule["kids"]:
+                cand = [b for _, b in g2]
+                if not (cand and _edit_body(rng, rng.choice(cand), grule["kids"])):
+                    continue
+            elif e == "sibling" and o2:
+                i = rng.randrange(len(o2))
+                x = rng.random()
+                if x < 0.3:
+                    del o2[i]
+                elif x < 0.8:
+                    o2[i] = (o2[i][0].split()[0] + " " + rng.choice(OKEYS), {})
+                else:
+                    o2.append((o2[i][0].split()[0] + " " + rng.choice(OKEYS) + "5", {}))
+            elif e == "same":
+                pass
+            else:
+                continue
+            done.append(e)
+        news.append(build(g2, o2, place if rng.random() < 0.6 else rng.random()))
+        edits.append(done)
+        cur, oth = g2, o2
+    orules = [] if rng.random() < 0.65 else P.gen_ordering(rng, rules, rev)
+    return {"vendor": v, "rules": rules, "orules": orules, "old": old, "news": news,
+            "patching": P.rules_text(rules), "ordering": P.ordering_text(orules), "stream": "ordered",
+            "tags": {"depth": depth, "shape": shape, "body_levels": body_levels, "rows": n, "edits": edits}}
+
+
 def _r(pat, logic="default", kids=(), parent=False):
     return {"pat": pat, "ign": False, "glob": False, "logic": logic, "mode": "", "parent": parent,
             "force_commit": False, "kids": list(kids)}
@@ -265,13 +478,23 @@ def coq_case(c: dict, o: dict) -> str:
 
 
 FLAGS = ("in_domain", "strict", "nothing_declined", "no_error", "reaches", "second_noop", "second_empty", "diff_empty",
-         "agree_device", "agree_diff_full", "agree_patch", "agree_paths", "wf_step", "theorem_domain")
+         "agree_device", "agree_diff_full", "agree_patch", "agree_paths", "wf_step", "theorem_domain",
+         "wf_step_o", "in_domain_o", "has_ordered", "reaches_o", "second_noop_o")
 CLAUSES = {
     "no_error": "a logic raised AssertionError although old and new hold at most one row per (rule, key)",
     "reaches": "executing the emitted command paths on old does not reach expected(R, old, new)",
     "second_noop": "the second patch, computed on the device state after the first, changes the device again",
     "second_empty": "the second patch still contains commands although no permanent/ignore_changes rule declined a change",
     "diff_empty": "the second diff is not empty although no permanent/ignore_changes rule declined a change",
+}
+# the ordered reading (Spec/P_C01o.v): domain wf_step_o (adds %ordered rules), clauses with the order of %ordered rows
+CLAUSES_O = {
+    "no_error": CLAUSES["no_error"],
+    "reaches_o": "executing the emitted command paths on old does not reach expected(R, old, new) with the rows of "
+                 "%ordered rules in new's order",
+    "second_noop_o": "the second patch changes the device again (rows or the order of %ordered rows)",
+    "second_empty": CLAUSES["second_empty"],
+    "diff_empty": CLAUSES["diff_empty"],
 }
 AGREE = ("agree_device", "agree_diff_full", "agree_patch", "agree_paths")
 
@@ -284,14 +507,14 @@ Definition cases : list (nat * c01case) := [
 {body}
 ].
 (* every chain is evaluated once; the verdict and the per-step flags are read off the same value *)
-Definition rep := Eval vm_compute in (map (fun c => (fst c, c01_report (snd c))) cases).
-Eval vm_compute in (map fst (filter (fun x => negb (report_ok (snd x))) rep)).
+Definition rep := Eval vm_compute in (map (fun c => (fst c, c01o_report (snd c))) cases).
+Eval vm_compute in (map fst (filter (fun x => negb (report_ok_o (snd x))) rep)).
 Eval vm_compute in rep.
 """
 
 
 def evaluate(ctx, cases: list[dict], outs: list[dict], tag="cases", per_file=12) -> dict:
-    """Coq evaluates c01_report (P_C01's clauses, threaded through Device.exec) once per chain.
+    """Coq evaluates c01o_report (the clauses of P_C01 and of P_C01o, threaded through Device.exec) once per chain.
     Returns {"bad": [indices where report_ok is false], "flags": {i: [ {flag: bool} per step ]}}."""
     import ast
     import re
@@ -373,16 +596,20 @@ def judge(ctx, cases, outs, res):
                 bad = [c for c in CLAUSES if not fl[c]]
                 if bad:
                     failing.setdefault("+".join(bad), (i, k, bad))
+            if fl["in_domain_o"]:
+                bad = [c for c in CLAUSES_O if not fl[c]]
+                if bad and not (fl["in_domain"] and any(not fl[c] for c in CLAUSES)):
+                    failing.setdefault("ordered/" + "+".join(bad), (i, k, bad))
             for a in AGREE:
                 if not fl[a]:
                     disagree.setdefault(a, (i, k))
     for sig, (i, k, bad) in failing.items():
-        ctx.add_violation(core.Violation(signature="C01/" + sig, what="; ".join(CLAUSES[c] for c in bad),
+        ctx.add_violation(core.Violation(signature="C01/" + sig, what="; ".join({**CLAUSES, **CLAUSES_O}[c] for c in bad),
                                          replay=dict(rep(i, k), clauses=bad)))
     explained = {i for (i, _, _) in failing.values()}
     for i in res["bad"]:
         if i not in explained and not any(not all(fl[a] for a in AGREE) for fl in res["flags"].get(i, [])):
-            ctx.add_violation(core.Violation(signature="C01/report", what="report_ok is false", replay=rep(i)))
+            ctx.add_violation(core.Violation(signature="C01/report", what="report_ok_o is false", replay=rep(i)))
     if not failing:
         for a, (i, k) in disagree.items():
             ctx.add_violation(core.Violation(
@@ -395,9 +622,12 @@ def judge(ctx, cases, outs, res):
 def run(ctx):
     core.proof_stage(ctx, THEOREM_FILE)
     rng = ctx.rng("chains")
+    orng = ctx.rng("ordered-chains")                          # a separately seeded stream: %ordered chains
     n = 5000 if ctx.thorough else 300
+    m = 2500 if ctx.thorough else 150
     wit = witnesses()
-    cases = wit + [gen_orev_case(rng) if i % 12 == 5 else gen_chain_case(rng) for i in range(n)]
+    cases = wit + [gen_orev_case(rng) if i % 12 == 5 else gen_chain_case(rng) for i in range(n)] + \
+        [gen_ordered_chain(orng) for _ in range(m)]
     outs = core.run_impl_sharded("c01_runner.py", [payload(c) for c in cases])
     for i, o in enumerate(outs):
         if "fatal" in o:
@@ -459,6 +689,34 @@ def fill_coverage(ctx, cases, outs, res):
                 any(len(p) >= 2 for p in o["steps"][0].get("cmd_paths", [])):
             nt += 1
     dom_first = [i for i in range(n) if fl.get(i) and fl[i][0]["in_domain"]]
+    # the ordered reading: steps inside wf_step_o whose universe holds a row of an %ordered rule
+    so = {k: 0 for k in ("steps_wf_step_o", "steps_in_ordered_domain", "steps_in_ordered_domain_with_ordered_rows",
+                         "steps_with_ordered_rows_outside_ordered_domain", "steps_excluded_by_ordering_sort_keys")}
+    oh: dict = {"chains": 0, "depth": {}, "shape": {}, "body_levels": {}, "edits": {}, "edits_evaluated_in_domain": {}}
+    o_first = []
+    for i, c in enumerate(cases):
+        for k, f in enumerate(fl.get(i, [])):
+            so["steps_wf_step_o"] += f["wf_step_o"]
+            so["steps_in_ordered_domain"] += f["in_domain_o"]
+            so["steps_in_ordered_domain_with_ordered_rows"] += f["in_domain_o"] and f["has_ordered"]
+            so["steps_with_ordered_rows_outside_ordered_domain"] += f["has_ordered"] and not f["in_domain_o"]
+            so["steps_excluded_by_ordering_sort_keys"] += f["wf_step_o"] and not f["in_domain_o"] and \
+                (f["in_domain"] or not f["wf_step"])
+        t = c.get("tags")
+        if c.get("stream") != "ordered" or not t:
+            continue
+        oh["chains"] += 1
+        for key in ("depth", "shape", "body_levels"):
+            oh[key][str(t[key])] = oh[key].get(str(t[key]), 0) + 1
+        for k, es in enumerate(t["edits"]):
+            f = fl.get(i, [])
+            ind = k < len(f) and f[k]["in_domain_o"] and f[k]["has_ordered"]
+            for e in es:
+                oh["edits"][e] = oh["edits"].get(e, 0) + 1
+                if ind:
+                    oh["edits_evaluated_in_domain"][e] = oh["edits_evaluated_in_domain"].get(e, 0) + 1
+        if fl.get(i) and fl[i][0]["in_domain_o"] and fl[i][0]["has_ordered"]:
+            o_first.append(i)
     ctx.coverage.update({
         "evaluations": n,
         "distinct_nontrivial": nt,
@@ -466,9 +724,14 @@ def fill_coverage(ctx, cases, outs, res):
                 "%ordered/%rewrite in part of the cases), 8 block vendors, ordering rulebooks (60%) incl. %order_reverse; "
                 "old drawn slot-aware from the rules, chains new_1..new_k (k<=4) by slot-aware mutation; distinct by "
                 "(vendor, rulebooks, old, chain); non-trivial = first step inside the domain wf_step (decided by Coq), "
-                ">= 3 command paths, at least one nested",
+                ">= 3 command paths, at least one nested.  Plus a separately seeded stream of %ordered chains (one "
+                "%ordered rule `entry *` / `entry * *` / `entry ~` at config depth 1-3, bodies of 0-2 levels incl. nested "
+                "%ordered, default/undo_redo/permanent/ignore_changes rules beside it; per step 1-2 edits among in-place "
+                "replacement of a non-last entry, insertion in the middle, append, removal, swap, rotation, reversal, "
+                "move, re-texting inside the slot, edits inside bodies and of sibling rows; see ordered_stream)",
         "samples": [{"case": payload(cases[i]), "impl_first_step_paths": outs[i]["steps"][0].get("cmd_paths")}
-                    for i in dom_first[:2]],
+                    for i in dom_first[:2] + o_first[:1]],
+        "ordered_stream": oh, **so,
         "traces_validated_against_impl": st["steps_evaluated"],
         "disagreements_checked": sum(1 for i in fl for f in fl[i] for a in AGREE if not f[a]),
         "chains": n, "steps_run": steps, "commands_in_patches": cmds,
@@ -477,7 +740,11 @@ def fill_coverage(ctx, cases, outs, res):
         **st,
     })
     ctx.assumptions += [
-        "device semantics = coq/Model/Device.v (one entry per (rule,key) slot per level; DESIGN §3.C01)",
+        "device semantics = coq/Model/Device.v (one entry per (rule,key) slot per level; DESIGN §3.C01); for %ordered "
+        "rules: a new row lands at the tail of its level, a re-texted row is re-created at the tail, and the relative "
+        "order of the rows of %ordered rules on a level is part of the state (Spec/P_C01o.v)",
+        "ordered reading evaluated in wf_step_o: one %ordered rule per level, only default/undo_redo/ordered rules below an "
+        "%ordered row, an ordering rulebook that gives the direct commands of the %ordered rows of a level one sort key",
         "rule patterns restricted to the plain rule language of Model/Pattern.v (C07)",
         "not modelled: %ignore_case re-keying, %multiline, %comment/add_comments, vendor %logic/%diff_logic functions, "
         "Juniper/Nokia/RouterOS flattened command forms on the device",
@@ -502,8 +769,10 @@ def replay(ctx, doc):
     res = evaluate(ctx, [c], [out], tag="replay")
     bad = False
     for k, fl in enumerate(res["flags"].get(0, [])):
-        failing = [x for x in CLAUSES if fl["in_domain"] and not fl[x]]
+        failing = [x for x in CLAUSES if fl["in_domain"] and not fl[x]] + \
+                  [x for x in CLAUSES_O if fl["in_domain_o"] and not fl[x] and x not in CLAUSES]
         disagree = [a for a in AGREE if not fl[a]]
-        print(f"step {k}: in_domain={fl['in_domain']} failing_clauses={failing} disagreements={disagree}")
+        print(f"step {k}: in_domain={fl['in_domain']} in_ordered_domain={fl['in_domain_o']} failing_clauses={failing} "
+              f"disagreements={disagree}")
         bad = bad or bool(failing) or bool(disagree)
     return 1 if bad else 0
